@@ -31,7 +31,10 @@ func (h *ZnHttpHandler) ServeHTTP(w http.ResponseWriter, r *http.Request) {
 		"当前请求": reqObj,
 	}
 	// execute code
-	rtnValue, err := h.interpreter.LoadFile(h.entryFile).Execute(varInput)
+	// LoadFile changes the interpreter: work on a per-request copy, so that concurrent
+	// requests (or other handlers sharing this interpreter) cannot swap the entry file
+	interpreter := *h.interpreter
+	rtnValue, err := interpreter.LoadFile(h.entryFile).Execute(varInput)
 	sendHTTPResponse(rtnValue, err, w)
 }
 
